@@ -39,12 +39,12 @@ def plan(tier):
 
 def gen_cases(ctx):
     k = 0
-    for i in range(ctx.share(ctx.scale(432, 9000))):
+    for i in range(ctx.share(ctx.scale(432, 45000))):
         rng = ctx.rng(1, i)
         yield {"kind": "jacobian", "flow": ["shear", "cell", "corner"][i % 3], "pair": int((i // 3) % 6),
                "amp": float(10.0 ** rng.uniform(-15, 2)), "size": float(10.0 ** rng.uniform(-3, 6)),
                "seed": int(rng.integers(1 << 31)), "npts": ctx.scale(25, 60)}
-    for i in range(ctx.share(ctx.scale(150, 3200))):
+    for i in range(ctx.share(ctx.scale(150, 16000))):
         rng = ctx.rng(2, i)
         yield {"kind": "pathline", "flow": ["corner", "shear", "cell"][i % 3], "pair": int(rng.integers(6)),
                "amp": float(10.0 ** rng.uniform(-10, 1)), "seed": int(rng.integers(1 << 31)),
